@@ -218,3 +218,8 @@ def run(tier):
                   "samples": [texts[7], texts[n_sweep // 2], texts[n_sweep + 3] if len(texts) > n_sweep + 3 else texts[-1], texts[-1]], "exhaustive": True}
     v.assumptions = ["exhaustive for the enumerated lengths/alphabets only; longer texts are sampled (mutations)", "token identity is informational: only what C07 states is judged"]
     return v.finish()
+
+
+def replay(path):
+    import replaytool
+    return replaytool.replay("C07", path)
